@@ -135,7 +135,23 @@ pub fn post_json(addr: SocketAddr, path: &str, v: &serde_json::Value) -> std::io
   request(addr, "POST", path, Some("application/json"), v.to_string().as_bytes(), Duration::from_secs(60))
 }
 
+static NEXT_PORT: std::sync::atomic::AtomicU32 = std::sync::atomic::AtomicU32::new(0);
+
+/// A port nobody in this process was handed before (cases run in parallel threads, so asking
+/// the OS for "any free port" and closing it again can hand the same port to two cases).
 pub fn free_port() -> u16 {
+  use std::sync::atomic::Ordering;
+  let base = 20000 + (std::process::id() % 400) * 100;
+  for _ in 0..2000 {
+    let n = NEXT_PORT.fetch_add(1, Ordering::SeqCst);
+    let port = (base + n % 20000) as u16;
+    if port < 1024 {
+      continue;
+    }
+    if TcpListener::bind(("127.0.0.1", port)).is_ok() {
+      return port;
+    }
+  }
   TcpListener::bind("127.0.0.1:0").and_then(|l| l.local_addr()).map(|a| a.port()).unwrap_or(18080)
 }
 
@@ -192,7 +208,12 @@ pub fn start_server(index_dir: &Path, extra: &[&str]) -> Result<Server, String> 
         break;
       }
       if s.healthy() {
-        return Ok(s);
+        // make sure it is OUR process that answers (a failed bind exits within milliseconds)
+        std::thread::sleep(Duration::from_millis(120));
+        if s.alive() && s.healthy() {
+          return Ok(s);
+        }
+        break;
       }
       std::thread::sleep(Duration::from_millis(30));
     }
